@@ -225,6 +225,12 @@ class Analyzer:
                 if n.get("ty") == "bool":
                     return ("bool", bool(n["val"]))
                 return ("int", n["val"])
+            if k == "ConstBlock" and env.get("$concrete"):
+                # a generic inline const (`offset_of_tuple!`): evaluate its body for the concrete type arguments
+                g = self.facts.fns.get(n.get("id"))
+                if g is not None and g.get("body"):
+                    b_ = peel_block(g["body"])
+                    return self.val(b_, {"$tsub": env.get("$tsub"), "$concrete": True, "$guards": {}, "$ver": env.get("$ver")})
             return None
         if k == "Index":
             b = self.val(n["e"], env)
@@ -276,7 +282,18 @@ class Analyzer:
                     return ("addr", a[1], a[2] + k_[1] * sz)
                 return None
             if c in ("core::mem::size_of", "std::mem::size_of"):
+                if env.get("$concrete"):
+                    sz = self.size_of(subst_ty(n["targs"][0], env.get("$tsub")))
+                    if sz is not None:
+                        return ("int", sz)
                 return ("sizeof", subst_ty(n["targs"][0], env.get("$tsub")))
+            if c == "core::intrinsics::offset_of" and env.get("$concrete") and len(n["args"]) == 2 and n.get("targs"):
+                t = subst_ty(n["targs"][0], env.get("$tsub"))
+                lay = self.facts.layouts.get(t)
+                fi = self.val(n["args"][1], env)
+                if lay and lay.get("fields") and fi and fi[0] == "int" and fi[1] < len(lay["fields"]):
+                    return ("int", lay["fields"][fi[1]]["offset"])
+                return None
             if c in ("core::cmp::PartialEq::eq", "core::cmp::PartialEq::ne") and len(n["args"]) == 2:
                 a, b = self.val(n["args"][0], env), self.val(n["args"][1], env)
                 return self.binop("Eq" if c.endswith("eq") else "Ne", a, b, env)
@@ -295,6 +312,14 @@ class Analyzer:
                 if v and v[0] == "bool":
                     return ("bool", v[1] if c.endswith("is_yes") else not v[1])
                 return None
+            if c == "core::ops::bit::BitAnd::bitand" and n.get("self_ty") == "savefile::IsPacked" and len(n["args"]) == 2:
+                a_, b_ = self.val(n["args"][0], env), self.val(n["args"][1], env)
+                if a_ is None or b_ is None:
+                    return None
+                items = []
+                for x in (a_, b_):
+                    items.extend(x[1] if x[0] == "pand" else [x])
+                return ("pand", items)
             if c == "savefile::IsPacked::no":
                 return ("bool", False)
             if c == "savefile::IsPacked::yes":
